@@ -1225,6 +1225,45 @@ theorem backward_ends : ∀ (p : Nat) (s : StaticSound ℝ), s.SliceOk → s.tra
       obtain ⟨sj, h4, h5⟩ := h3 j (by omega)
       exact ⟨sj, by rw [updN_succ, hu]; exact h4, h5⟩
 
+theorem updN_isStopped : ∀ (k : Nat) (s s' : StaticSound ℝ), s.IsStopped → updN k s = .ok s' → s'.IsStopped := by
+  intro k
+  induction k with
+  | zero => intro s s' h hu; injection hu with hu; subst hu; exact h
+  | succ k ih =>
+    intro s s' h hu
+    rw [updN_succ] at hu
+    cases h1 : s.updatePosition with
+    | error f => rw [h1] at hu; simp at hu
+    | ok s1 =>
+      rw [h1] at hu
+      refine ih s1 s' ?_ hu
+      obtain ⟨fo, t, c, hc, rfl⟩ := updatePosition_shape s s1 h1
+      rcases hc with rfl | rfl
+      · exact h
+      · exact markStopped_isStopped s.core
+
+/-- at a constant rate, once `k` output frames amount to at least `N` position steps and the sound
+    is Stopped after `N` steps, it is Stopped after these `k` frames -/
+theorem renderLoop_reaches_stopped (fuel : Nat) (dt : ℝ) (len : Nat) (c : ℝ) (hc : 0 ≤ c) (k i N : Nat)
+    (s s' sN : StaticSound ℝ) (outs : List (Frame ℝ)) (hstep : ∀ t, s.fracStep t dt = c) (h0 : 0 ≤ s.frac)
+    (h1 : s.frac < 1) (hfuel : ⌊s.frac + k * c⌋₊ < fuel) (hN : updN N s = .ok sN) (hst : sN.IsStopped)
+    (hk : (N : ℝ) ≤ k * c) (h : renderLoop fuel dt len k i s = .ok (s', outs)) : s'.IsStopped := by
+  have hsteps := renderLoop_steps fuel dt len c hc k i s hstep h0 h1 hfuel
+  rw [h] at hsteps
+  simp only [Except.map] at hsteps
+  have hle : N ≤ ⌊s.frac + k * c⌋₊ := Nat.le_floor (by linarith)
+  obtain ⟨d, hd⟩ := Nat.exists_eq_add_of_le hle
+  rw [hd, updN_add, hN] at hsteps
+  simp only [] at hsteps
+  cases hu : updN d sN with
+  | error f => rw [hu] at hsteps; simp [Except.map] at hsteps
+  | ok s2 =>
+    rw [hu] at hsteps
+    simp only [Except.map] at hsteps
+    injection hsteps with hsteps
+    rw [hsteps]
+    exact updN_isStopped d sN s2 hst hu
+
 /-! ### a freshly built sound -/
 
 /-- settings that leave the source untouched: 0 dB, centre, no fade-in, immediate start, fixed rate `r` -/
